@@ -270,5 +270,107 @@ theorem dur_wrap_point :
     PDur false [(9223372036854775808, .ns), (9223372036854775808, .ns)]
       (parseDur false [(9223372036854775808, .ns), (9223372036854775808, .ns)]) = false := by decide
 
+/-! #### which shared entry a local entry is merged with -/
+
+/-- `compareDomainID` is numeric equality of the two ids (int or float64, fractional values included) and nothing
+    else: no truncation, no match for non-numeric ids -/
+theorem sameId_iff (a b : Option V) : sameId a b = true ↔ ∃ x, idVal a = some x ∧ idVal b = some x := by
+  unfold sameId
+  cases ha : idVal a <;> cases hb : idVal b <;> simp
+  exact eq_comm
+
+/-- an entry that loads was merged with a shared entry of numerically EQUAL id -/
+theorem processOne_sound (merge : Chain → Chain → Chain) (shareds : List Chain) (c m : Chain)
+    (h : processOne merge shareds c = some m) :
+    ∃ s ∈ shareds, sameId (c.get "id") (s.get "id") = true ∧ m = merge c s := by
+  unfold processOne at h
+  split at h; · cases h
+  split at h; · cases h
+  split at h
+  · cases h
+  · next s hs =>
+    refine ⟨s, List.mem_of_find?_eq_some hs, ?_, (Option.some.inj h).symm⟩
+    have := List.find?_some hs
+    simpa using this
+
+/-- without a shared entry of equal id the entry fails to load, whatever else it contains -/
+theorem processOne_missing (merge : Chain → Chain → Chain) (shareds : List Chain) (c : Chain)
+    (h : ∀ s ∈ shareds, sameId (c.get "id") (s.get "id") = false) : processOne merge shareds c = none := by
+  unfold processOne
+  split; · rfl
+  split; · rfl
+  have : shareds.find? (fun s => sameId (c.get "id") (s.get "id")) = none := by
+    rw [List.find?_eq_none]; intro s hs; simp [h s hs]
+  rw [this]
+
+/-- **Merge partner.** For all local and shared chain lists: if loading succeeds, the results correspond one to one
+    to the local entries, each merged with a shared entry whose id is numerically equal to its own. -/
+theorem processChains_sound (merge : Chain → Chain → Chain) (locals shareds rs : List Chain)
+    (h : processChains merge locals shareds = some rs) :
+    rs.length = locals.length ∧
+    ∀ p ∈ locals.zip rs, ∃ s ∈ shareds, sameId (p.1.get "id") (s.get "id") = true ∧ p.2 = merge p.1 s := by
+  induction locals generalizing rs with
+  | nil => simp [processChains] at h; subst h; simp
+  | cons c cs ih =>
+    simp only [processChains] at h
+    cases h1 : processOne merge shareds c with
+    | none => rw [h1] at h; cases h
+    | some m =>
+      rw [h1] at h
+      cases h2 : processChains merge cs shareds with
+      | none => rw [h2] at h; cases h
+      | some ms =>
+        rw [h2] at h
+        simp only [Option.map_some, Option.some.injEq] at h
+        subst h
+        obtain ⟨hl, hz⟩ := ih ms h2
+        refine ⟨by simp [hl], ?_⟩
+        intro p hp
+        simp only [List.zip_cons_cons, List.mem_cons] at hp
+        rcases hp with rfl | hp
+        · exact processOne_sound merge shareds c m h1
+        · exact hz p hp
+
+/-- … and one local entry whose id equals no shared id (e.g. the fractional 2.5 next to the domains 2 and 3) fails
+    the whole load -/
+theorem processChains_missing (merge : Chain → Chain → Chain) (locals shareds : List Chain) (c : Chain)
+    (hc : c ∈ locals) (h : ∀ s ∈ shareds, sameId (c.get "id") (s.get "id") = false) :
+    processChains merge locals shareds = none := by
+  induction locals with
+  | nil => cases hc
+  | cons x xs ih =>
+    simp only [processChains]
+    rcases List.mem_cons.1 hc with rfl | hx
+    · rw [processOne_missing merge shareds c h]
+    · cases processOne merge shareds x with
+      | none => rfl
+      | some m => simp [ih hx]
+
+/-- non-vacuity: id 2.5 matches neither domain 2 nor 3 (int or float64); float64 2.0 matches int 2 -/
+example :
+    let sh : List Chain := [[("id", .num 2 false), ("bridge", .str "b2")], [("id", .num 3 true), ("bridge", .str "b3")]]
+    processChains mergeChain [[("id", .frac 2500), ("type", .str "evm")]] sh = none ∧
+    processChains mergeChain [[("id", .frac (-2500)), ("type", .str "evm")]] sh = none ∧
+    processChains mergeChain [[("id", .num 2 true), ("type", .str "evm")]] sh
+      = some [[("id", .num 2 true), ("type", .str "evm"), ("bridge", .str "b2")]] ∧
+    sameId (some (.frac 2500)) (some (.frac 2500)) = true := by decide
+
+/-- **Merge, without hypotheses.** For ALL local and shared entries the code's merge satisfies the property at every
+    key except exactly the known point: an empty local value (0, "", false) where the shared entry has the key, which
+    receives the shared value. -/
+theorem merge_excused (loc shared : Chain) : PMergeExc loc shared (mergeChain loc shared) = true := by
+  unfold PMergeExc
+  rw [List.all_eq_true]
+  intro k _
+  rw [merge_get]
+  unfold wanted mergeVal
+  cases hl : Chain.get loc k with
+  | none => simp
+  | some v =>
+    cases hs : Chain.get shared k with
+    | none => simp
+    | some sv =>
+      by_cases he : v.isEmpty = true <;> simp [he]
+
 end Property
 end Sygma.C20
